@@ -49,25 +49,32 @@ deriving DecidableEq, Repr
 def ZRes.verdict : ZRes → Verdict
   | .ok _ _ => .ok | .sizeErr _ => .sizeErr | .readErr _ => .readErr | .panic _ => .panic
 
-/-- what happens to one entry once the size guard has passed -/
+/-- what happens to one entry once the size guard has passed (its declared size is then non-negative,
+so `readFile`'s `make` cannot panic any more): it is spilled, read into memory, or `Open` fails -/
 def entryOutcome (l : Limits) (e : Entry) : Verdict :=
   if spillCont l (normName e.name) e then .ok
   else match e.io with
     | .open => .readErr
-    | _ => if e.declared < 0 then .panic else .ok
+    | _ => .ok
+
+/-- the size guard: a declared size of 2^63 or more (negative `FileInfo().Size()`), or a running
+declared total above UnzipSizeLimit -/
+def over (l : Limits) (t : Int) (e : Entry) : Prop := e.declared < 0 ∨ t + e.declared > l.size
+
+instance (l : Limits) (t : Int) (e : Entry) : Decidable (over l t e) := by unfold over; exact inferInstance
 
 /-- the verdict as a function of the limits and the zip directory only -/
 def verdictOf (l : Limits) : Int → List Entry → Verdict
   | _, [] => .ok
   | t, e :: r =>
-    if t + e.declared > l.size then .sizeErr
+    if over l t e then .sizeErr
     else if entryOutcome l e = .ok then verdictOf l (t + e.declared) r
     else entryOutcome l e
 
 theorem verdictOf_nil (l : Limits) (t : Int) : verdictOf l t [] = .ok := rfl
 
 theorem verdictOf_cons (l : Limits) (t : Int) (e : Entry) (r : List Entry) :
-    verdictOf l t (e :: r) = if t + e.declared > l.size then .sizeErr
+    verdictOf l t (e :: r) = if over l t e then .sizeErr
       else if entryOutcome l e = .ok then verdictOf l (t + e.declared) r else entryOutcome l e := rfl
 
 theorem readZip_verdictOf (l : Limits) : ∀ (es : List Entry) (st : St) (t : Int) (ws : Nat),
@@ -75,9 +82,10 @@ theorem readZip_verdictOf (l : Limits) : ∀ (es : List Entry) (st : St) (t : In
   | [], st, t, ws => by rw [verdictOf_nil]; rfl
   | e :: rest, st, t, ws => by
     rw [readZip_cons, verdictOf_cons]
-    by_cases hg : t + e.declared > l.size
+    by_cases hg : over l t e
     · rw [if_pos (by rw [sizeGuard_eq]; exact decide_eq_true hg), if_pos hg]; rfl
-    · rw [if_neg (by rw [sizeGuard_eq]; simpa using hg), if_neg hg, spillStep_flag]
+    · rw [if_neg (by rw [sizeGuard_eq]; simpa [over] using hg), if_neg hg, spillStep_flag]
+      have hnn : ¬ e.declared < 0 := fun h => hg (Or.inl h)
       unfold entryOutcome
       by_cases hc : spillCont l (normName e.name) e = true
       · rw [if_pos hc, if_pos hc, if_pos rfl]
@@ -86,75 +94,86 @@ theorem readZip_verdictOf (l : Limits) : ∀ (es : List Entry) (st : St) (t : In
         unfold readFileInto
         cases hio : e.io with
         | «open» => simp [ZRes.verdict]
-        | none =>
-          by_cases hn : e.declared < 0
-          · simp [hn, ZRes.verdict]
-          · simp only [hn, if_false, if_true]; exact readZip_verdictOf l rest _ _ _
-        | copy =>
-          by_cases hn : e.declared < 0
-          · simp [hn, ZRes.verdict]
-          · simp only [hn, if_false, if_true]; exact readZip_verdictOf l rest _ _ _
+        | none => simp only [hnn, if_false, if_true]; exact readZip_verdictOf l rest _ _ _
+        | copy => simp only [hnn, if_false, if_true]; exact readZip_verdictOf l rest _ _ _
 
-/-- the size error is returned iff some non-empty prefix exceeds the limit and every entry before
-the first such prefix could be processed -/
+/-- no panic outcome is left: the guard rejects a negative declared size before `readFile` runs -/
+theorem verdictOf_ne_panic (l : Limits) : ∀ (es : List Entry) (t : Int), verdictOf l t es ≠ .panic
+  | [], t => by rw [verdictOf_nil]; intro h; cases h
+  | e :: r, t => by
+    rw [verdictOf_cons]
+    split
+    · intro h; cases h
+    · split
+      · exact verdictOf_ne_panic l r _
+      · unfold entryOutcome
+        split
+        · intro h; cases h
+        · cases e.io <;> (intro h; cases h)
+
+/-- running total before entry k -/
+def totalBefore (t : Int) (es : List Entry) (k : Nat) : Int := t + declSum (es.take k)
+
+/-- the size error is returned iff there is a first entry at which the guard fires (declared size
+negative, i.e. >= 2^63, or running declared total above the limit) and every entry before it
+could be processed -/
 theorem verdictOf_sizeErr (l : Limits) : ∀ (es : List Entry) (t : Int),
     verdictOf l t es = .sizeErr ↔
-      ∃ k, k < es.length ∧ t + declSum (es.take (k + 1)) > l.size ∧
-        (∀ j, j < k → ¬ (t + declSum (es.take (j + 1)) > l.size)) ∧
-        (∀ j, j < k → ∀ e, es[j]? = some e → entryOutcome l e = .ok)
+      ∃ k e, es[k]? = some e ∧ over l (totalBefore t es k) e ∧
+        (∀ j e', j < k → es[j]? = some e' → ¬ over l (totalBefore t es j) e' ∧ entryOutcome l e' = .ok)
   | [], t => by
     rw [verdictOf_nil]
     constructor
     · intro h; cases h
-    · rintro ⟨k, h1, _⟩; simp at h1
+    · rintro ⟨k, e, h1, _⟩; simp at h1
   | e :: rest, t => by
     rw [verdictOf_cons]
-    by_cases hg : t + e.declared > l.size
+    by_cases hg : over l t e
     · rw [if_pos hg]
       constructor
       · intro _
-        exact ⟨0, by simp, by simpa [declSum] using hg, by intro j hj; omega, by intro j hj; omega⟩
+        exact ⟨0, e, by simp, by simpa [totalBefore, declSum] using hg, by intro j e' hj; omega⟩
       · intro _; rfl
     · rw [if_neg hg]
       have ih := verdictOf_sizeErr l rest (t + e.declared)
+      have tb : ∀ k, totalBefore t (e :: rest) (k + 1) = totalBefore (t + e.declared) rest k := by
+        intro k; simp only [totalBefore, List.take_succ_cons, declSum]; omega
       by_cases ho : entryOutcome l e = .ok
       · rw [if_pos ho, ih]
         constructor
-        · rintro ⟨k, h1, h2, h3, h4⟩
-          refine ⟨k + 1, by simp; omega, ?_, ?_, ?_⟩
-          · simp only [List.take_succ_cons, declSum]; omega
-          · intro j hj
-            cases j with
-            | zero => simpa [declSum] using hg
-            | succ j =>
-              have := h3 j (by omega)
-              simp only [List.take_succ_cons, declSum]; omega
-          · intro j hj x hx
-            cases j with
-            | zero => simp at hx; subst hx; exact ho
-            | succ j => exact h4 j (by omega) x (by simpa using hx)
-        · rintro ⟨k, h1, h2, h3, h4⟩
+        · rintro ⟨k, x, h1, h2, h3⟩
+          refine ⟨k + 1, x, by simpa using h1, by rw [tb]; exact h2, ?_⟩
+          intro j e' hj hx
+          cases j with
+          | zero =>
+            simp at hx; subst hx
+            exact ⟨by simpa [totalBefore, declSum] using hg, ho⟩
+          | succ j =>
+            rw [tb]
+            exact h3 j e' (by omega) (by simpa using hx)
+        · rintro ⟨k, x, h1, h2, h3⟩
           cases k with
-          | zero => simp [declSum] at h2; omega
+          | zero =>
+            simp at h1; subst h1
+            exact absurd (by simpa [totalBefore, declSum] using h2) hg
           | succ k =>
-            refine ⟨k, by simp at h1; omega, ?_, ?_, ?_⟩
-            · simp only [List.take_succ_cons, declSum] at h2; omega
-            · intro j hj
-              have := h3 (j + 1) (by omega)
-              simp only [List.take_succ_cons, declSum] at this; omega
-            · intro j hj x hx
-              exact h4 (j + 1) (by omega) x (by simpa using hx)
+            refine ⟨k, x, by simpa using h1, by rw [← tb]; exact h2, ?_⟩
+            intro j e' hj hx
+            have := h3 (j + 1) e' (by omega) (by simpa using hx)
+            rw [tb] at this
+            exact this
       · rw [if_neg ho]
         constructor
-        · intro h
-          exfalso
-          unfold entryOutcome at h ho
-          split at h
-          · cases h
-          · cases hio : e.io <;> simp [hio] at h <;> split at h <;> cases h
-        · rintro ⟨k, h1, h2, h3, h4⟩
+        · intro h; exact absurd h (by
+            unfold entryOutcome at ho ⊢
+            split
+            · intro h'; cases h'
+            · cases e.io <;> (intro h'; cases h'))
+        · rintro ⟨k, x, h1, h2, h3⟩
           cases k with
-          | zero => simp [declSum] at h2; omega
-          | succ k => exact absurd (h4 0 (by omega) e (by simp)) ho
+          | zero =>
+            simp at h1; subst h1
+            exact absurd (by simpa [totalBefore, declSum] using h2) hg
+          | succ k => exact absurd (h3 0 e (by omega) (by simp)).2 ho
 
 end XlModel.Store
